@@ -2,7 +2,7 @@
 (* Reference codec of the DLT layout: encode and decode, written from the    *)
 (* layout description (DESIGN Appendix A).  Values >= 2^16 are big-endian     *)
 (* byte images.                                                              *)
-EXTENDS Naturals, Sequences, Bytes, Utf8, DltCodes
+EXTENDS Integers, Sequences, Bytes, Utf8, DltCodes
 
 \* ---------------------------------------------------------------- fields
 \* fixed-size NUL-terminated field s[p..p+n-1] (caller guarantees it is inside the buffer)
@@ -247,6 +247,21 @@ Forward(buf) == LET k == FindPattern(buf) IN IF k = 0 THEN [v |-> "none"] ELSE [
 \* dlt_zero_terminated_string(buf, size)
 ZStr(buf, size) == IF Len(buf) < size THEN [v |-> "inc", miss |-> size - Len(buf)]
                    ELSE [v |-> "ok", val |-> ZField(buf, 1, size), consumed |-> size]
+
+\* ---------------------------------------------------------------- the frame a buffer declares (C04)
+\* offset of the standard header (after resync and storage header) and the end given by its length field;
+\* -1 when the buffer holds no decodable frame header.  api: "parse" (resync) or "consume" (no resync).
+FrameOff(buf, sh, api) == IF ~sh THEN 0 ELSE IF api = "consume" THEN 16 ELSE LET k == FindPattern(buf) IN IF k = 0 THEN 0 - 1 ELSE k + 15
+FrameOf(buf, sh, api) ==
+  LET o == FrameOff(buf, sh, api) IN
+  IF o < 0 \/ Len(buf) < o + 4 THEN [end |-> 0 - 1, n |-> 0]
+  ELSE [end |-> o + U16(buf, o + 3, TRUE), n |-> U16(buf, o + 3, TRUE) - HdrsLen(buf[o + 1])]
+\* a successful call (message, filtered-out marker, skipped) must consume exactly the declared frame
+FrameOk(buf, sh, api, r) ==      \* r: [v, consumed, n]
+  IF r.v \notin {"msg", "filtered", "skipped", "invalid"} THEN TRUE          \* the property speaks about successful calls only
+  ELSE LET fr == FrameOf(buf, sh, api) IN
+       /\ fr.end > 0 /\ r.consumed = fr.end /\ r.consumed <= Len(buf)
+       /\ r.v \in {"msg", "filtered"} => r.n = fr.n                         \* reported payload length = the distance
 
 \* ---------------------------------------------------------------- construct_arguments (C13)
 \* types: sequence of [kind, w, cod, vari, trai]; data: payload after the message id; be: byte order.
